@@ -223,6 +223,13 @@ def run_impl(case):
         out["eq"] = [float(f(list(x))) for f in eq]
         out["names"] = [f.__name__ for f in ineq] + [f.__name__ for f in eq]
         out["p"] = float(pen(list(x)))
+        # the same conditions combined with join=and_ / or_ (coupler): the multipliers must reach the per-group penalties
+        try:
+            from mystic.coupler import and_ as _pand, or_ as _por
+            out["p_and"] = float(ms.generate_penalty(cond, join=_pand, **kw)(list(x)))
+            out["p_or"] = float(ms.generate_penalty(cond, join=_por, **kw)(list(x)))
+        except Exception as e:
+            out["p_join_error"] = "%s: %s" % (type(e).__name__, str(e)[:120])
         if case["kind"] == "iso":
             solv = ms.generate_solvers(txt, variables=var, nvars=case["nvars"], locals=dict(locs) if use_locals else None)
             con = ms.generate_constraint(solv)
@@ -331,6 +338,12 @@ def oracle(case, obs):
         out.append(_fail("penalty_positive_elsewhere", "symbolic.generate_penalty", "negative-or-nan", p))
     elif abs(F(p) - exp) > F(1, 10 ** 9) * max(abs(exp), F(p)) and not (exp < F(1, 10 ** 300)):
         out.append(_fail("penalty_is_sum_of_terms", "symbolic.generate_penalty", "not-the-sum", dict(p=p, expected=float(exp), k=k)))
+    if "p_and" in obs and p == p and p >= 0 and p != float("inf"):
+        pa, po = obs["p_and"], obs["p_or"]
+        if not (pa == pa) or abs(F(pa) - F(p)) > F(1, 10 ** 9) * max(F(p), F(abs(pa))):
+            out.append(_fail("penalty_is_sum_of_terms", "symbolic.generate_penalty", "join-and-differs-from-sum", dict(p=p, p_and=pa, k=k)))
+        if not (po == po) or po < 0 or F(po) > F(pa) * (1 + F(1, 10 ** 9)):
+            out.append(_fail("penalty_is_sum_of_terms", "symbolic.generate_penalty", "join-or-above-join-and", dict(p_or=po, p_and=pa, k=k)))
     if all_sat and p != 0.0:
         out.append(_fail("penalty_zero_iff_all_hold", "symbolic.generate_penalty", "positive-on-satisfied", dict(p=p)))
     if not all_sat and p == 0.0 and not tiny_violation:
